@@ -827,6 +827,88 @@ def r07m(ctx, run):
     c11.r11d(ctx, run)
 
 
+def r07n(ctx, run):
+    """weak-type replacement is a second way for an operator to meet a type: `x : f32 = 7 % 2;` is accepted while the operands are weak integers and
+    the annotation then pushes f32 into them.  The Binary arm of replace_weak_tys is evaluated from source for every operator and new type
+    (a float, a signed and an unsigned integer): the operands may be given the new type only where can_perform (evaluated from ty.rs) allows the
+    operator on it - what it allows is what compile_num_binary has an arm for (R07.d)."""
+    from absint import Obj, Term, Variant, Panic, CannotEstablish, _Return
+    V = Variant
+    fn = ctx.syn.fn("GlobalInferenceCtx::replace_weak_tys", "hir_ty/src/globals.rs")
+    arms = [(p_, b, a) for m in synq.matches_on(fn.body) if canon(m["e"]) == "expr_body" for h, p_, g, b, a in synq.match_table(m) if h and synq.last_seg(h) == "Binary"]
+    if len(arms) != 1:
+        raise LookupError("the Binary arm of replace_weak_tys: %d" % len(arms))
+    pat, body, arm = arms[0]
+    cp = [f for f in ctx.syn.fns_in("hir/src/common/ty.rs") if f.qual == "BinaryOp::can_perform" and f.body is not None]
+    if len(cp) != 1:
+        raise LookupError("impl TypedOp for BinaryOp: can_perform")
+    cp = cp[0]
+    _, en = ctx.syn.item("enum", "BinaryOp", "hir/src/body.rs")
+    ops = [v["n"] for v in en["variants"]]
+    QI = make_ty_interp(ctx)
+    fields = {}
+    if pat.get("k") == "p_struct":
+        for fname, fp in pat.get("f", []):
+            if fp is not None and fp.get("k") == "p_ident":
+                fields[fname] = fp["n"]
+    news = (("f32", V("Ty::Float", {"0": 32})), ("i64", V("Ty::IInt", {"0": 64})), ("u8", V("Ty::UInt", {"0": 8})))
+    n = 0
+    for op in ops:
+        if op in ("LAnd", "LOr", "Lt", "Gt", "Le", "Ge", "Eq", "Ne"):
+            continue        # their result is a bool: never weak, never replaced
+        for tn, ty in news:
+            calls = []
+
+            class RI(QI):
+                def default_method(self, recv, m_, args, e):
+                    if isinstance(recv, Obj) and recv.name == "self" and m_ == "replace_weak_tys":
+                        calls.append((args[0], args[1]))
+                        return True
+                    if isinstance(recv, Variant) and recv.path.endswith("BinaryOp::" + op) and m_ == "can_perform":
+                        return self.inline(cp, args, recv=recv)
+                    if m_ in ("insert",) and not isinstance(recv, (list, dict)):
+                        return None
+                    if m_ == "push" and isinstance(recv, Term) and recv.op == "diagnostics":
+                        reported.append(args[0])
+                        return None
+                    return super().default_method(recv, m_, args, e)
+
+                def eval(self, e, env):
+                    if e.get("k") == "index" and canon(e["e"]).startswith("self.tys"):
+                        return Term("tys_entry")
+                    if e.get("k") == "field" and canon(e).startswith("self.tys"):
+                        return Term("tys_entry")
+                    if e.get("k") == "field" and canon(e) == "self.diagnostics":
+                        return Term("diagnostics")
+                    if e.get("k") == "struct" and e["p"].endswith("TyDiagnostic"):
+                        return Obj("TyDiagnostic", kind=next((canon(f_[1]) for f_ in e["f"] if f_[0] == "kind"), ""))
+                    return super().eval(e, env)
+            reported = []
+            it = RI()
+            env = {"self": Obj("self"), "expr": Term("e_bin"), "new_ty": ty, "found_ty": V("Ty::UInt", {"0": 0}), "really_replaced": True}
+            for fname, var in fields.items():
+                env[var] = V("BinaryOp::" + op) if fname == "op" else Term(fname)
+            key = "weak-replace:%s:%s" % (op, tn)
+            try:
+                allowed = QI().run_fn(cp, {"self": V("BinaryOp::" + op), cp.param_names()[-1]: ty})
+                try:
+                    it.eval(body, env)
+                except _Return:
+                    pass
+            except (Panic, CannotEstablish) as c:
+                run.finding(fn.qual, key, fn.file, arm["ln"], "cannot establish what replace_weak_tys does with the operands of `%s` for the new type %s: %s" % (op, tn, getattr(c, "what", c)))
+                continue
+            n += 1
+            pushed = [t for t, ty_ in calls if ty_ == ty]
+            run.check(allowed is True or not pushed or bool(reported), fn.site(arm["ln"]),
+                      "`%s` with a weak result and the new type %s: %s" % (op, tn, ("operands retyped" if allowed is True else "reported as an error") if pushed else "left alone"),
+                      fn.qual, key, fn.file, arm["ln"],
+                      "the operands of a weak `%s` are given the type %s, without a diagnostic, although the checker's own rule (BinaryOp::can_perform) does not allow `%s` on %s: `x : %s = 7 %s 2;` passes "
+                      "the checker and the code generator, which believes the combination impossible, panics" % (op, tn, op, tn, tn, {"Mod": "%", "LShift": "<<", "RShift": ">>"}.get(op, op)))
+    if n < 20:
+        raise LookupError("operator / type pairs evaluated: %d" % n)
+
+
 def rules(ctx):
     return [
         Rule("R07.a", "the error gate (both diagnostic sources, exit 1) and the unsafe assert dominate every code-generation call; comptime evaluation is guarded", 12, r07a),
@@ -838,6 +920,7 @@ def rules(ctx):
         Rule("R07.k", "array -> slice is accepted only when the element representation is kept (the slice aliases the array's memory)", 1, r07k),
         Rule("R07.i", "== / != on aggregates: every component type the comparison recurses into has a code-generator arm (checker and generator evaluated one level deep)", 60, r07i),
         Rule("R07.m", "an accepted enum declaration has pairwise distinct discriminants (no diagnostic exists for a clash and the code generator panics on one; shared with C11 R11.d)", 2, r07m),
+        Rule("R07.n", "weak-type replacement gives the operands of a binary operator a new type only where can_perform allows the operator on it (Binary arm of replace_weak_tys evaluated)", 20, r07n),
         Rule("R07.j", "nested bodies (lambda, comptime) set the enclosing params, scopes and labels aside: a jump to an outer label is reported, not compiled (shared with C05 R05.d)", 4, r07j),
         Rule("R07.g", "get_const's classification per expression kind: Unknown (= stay silent) only where an error was already reported (shared with C15 R15.b)", 60, r07g),
         Rule("R07.f", "the common type of a branch that always jumps and any other branch never wraps `noeval` in a constructor (no code-generator support, no diagnostic)", 60, r07f),
